@@ -108,7 +108,20 @@ func shredNode(n *Node, v V, r, d, depth, col int, out [][]LV) int {
 func shredContent(n *Node, v V, r, d, depth, col int, out [][]LV) int {
 	switch n.Kind {
 	case "leaf":
-		out[col] = append(out[col], LV{I: v.I, B: v.B, Rep: r, Def: d})
+		b := v.B
+		// fixed-size values are normalised to their size (a shrunk or zero V has no bytes)
+		if l := ParseLeaf(n.Leaf); l.Phys == FLBA || l.Phys == Int96 {
+			size := l.Len
+			if l.Phys == Int96 {
+				size = 12
+			}
+			if len(b) != size {
+				nb := make([]byte, size)
+				copy(nb, b)
+				b = nb
+			}
+		}
+		out[col] = append(out[col], LV{I: v.I, B: b, Rep: r, Def: d})
 		return col + 1
 	case "group":
 		for i := range n.Children {
